@@ -144,6 +144,12 @@ def step (c : CS) (line : String) : CS × String :=
           | some t => (c, showTokens (["ok", k] ++ showV t v ++ [s!"rest={rest.length}"]))
           | none => (c, "err")
         | none => (c, "err")
+  | ["wnil", name] =>
+    -- a nil pointer is not a message: the writer returns an error for every registered type
+    if c.known.contains name then (c, "err") else (c, "bad-op")
+  | ["wzero", name] =>
+    -- the zero value (all pointer / interface fields nil) encodes or is rejected — it does not panic
+    if c.known.contains name then (c, "nopanic") else (c, "bad-op")
   | ["rfl", kind, hx] =>
     match reflTy kind, parseBytes hx with
     | some t, some bs =>
